@@ -139,6 +139,12 @@ type ent struct {
 	perm   uint32
 	uid    uint32
 	chunks []uint64 // chunk "ids": the needle key part of the file id  "1,<key hex>00000001"
+	ext    []extKV  // Extended attributes, sorted by key
+}
+
+type extKV struct {
+	k string
+	v []byte
 }
 
 func fid(k uint64) string { return fmt.Sprintf("1,%x00000001", k) }
@@ -152,6 +158,12 @@ func (e ent) toEntry(p string) *filer.Entry {
 	en := &filer.Entry{FullPath: util.FullPath(p), Attr: filer.Attr{Mtime: t, Crtime: t, Mode: mode, Uid: e.uid, Gid: 7}}
 	for i, k := range e.chunks {
 		en.Chunks = append(en.Chunks, &filer_pb.FileChunk{FileId: fid(k), Offset: int64(i) * 10, Size: 10, Mtime: 1})
+	}
+	if len(e.ext) > 0 {
+		en.Extended = map[string][]byte{}
+		for _, kv := range e.ext {
+			en.Extended[kv.k] = append([]byte{}, kv.v...)
+		}
 	}
 	return en
 }
@@ -169,6 +181,10 @@ func project(e *filer.Entry) ent {
 		_ = cookie
 		r.chunks = append(r.chunks, key>>32)
 	}
+	for k, v := range e.Extended {
+		r.ext = append(r.ext, extKV{k, append([]byte{}, v...)})
+	}
+	sort.Slice(r.ext, func(i, j int) bool { return r.ext[i].k < r.ext[j].k })
 	return r
 }
 
@@ -234,7 +250,8 @@ func classify(err error, capHit bool) string {
 	switch {
 	case strings.Contains(m, "verif-cap"):
 		return "OutOfFuel"
-	case strings.Contains(m, "subdirectory of itself"):
+	case strings.Contains(m, "subdirectory of itself"), strings.Contains(m, "invalid entry name"),
+		strings.Contains(m, "can not move across collection"):
 		return "EInvalid"
 	case strings.Contains(m, filer.MsgFailDelNonEmptyFolder):
 		return "ENotEmpty"
@@ -262,12 +279,11 @@ func (w *world) apply(o op) (class string, timedOut bool) {
 	case opCreate:
 		err = w.f.CreateEntry(w.ctx, o.e.toEntry(o.path), o.excl, false, nil)
 	case opUpdate:
-		// the pattern of the gRPC UpdateEntry handler: FindEntry, then Filer.UpdateEntry(old, new)
-		var old *filer.Entry
-		old, err = w.f.FindEntry(w.ctx, util.FullPath(o.path))
-		if err == nil {
-			err = w.f.UpdateEntry(w.ctx, old, o.e.toEntry(o.path))
-		}
+		// the real gRPC handler FilerServer.UpdateEntry: FindEntry, cleanupChunks, the EqualEntry
+		// short-circuit, then Filer.UpdateEntry(found, new)
+		en := o.e.toEntry(o.path)
+		d, _ := dirName(o.path)
+		_, err = w.fs.UpdateEntry(w.ctx, &filer_pb.UpdateEntryRequest{Directory: d, Entry: en.ToProtoEntry()})
 	case opDelete:
 		err = w.f.DeleteEntryMetaAndData(w.ctx, util.FullPath(o.path), o.rec, o.ign, false, false, nil)
 	case opRename:
